@@ -131,6 +131,9 @@ def apply_op(pool, op):
             A(1).finalize()
         elif name == "new_id":
             A(1).new_id(op[2])
+        elif name == "new_id_of":
+            # the id another pooled object carries, in another accepted spelling
+            A(1).new_id(pool[op[2]].id.upper())
         elif name == "set_card":
             setattr(A(1), op[2], _lit(op[3]))
         elif name == "set_values":
@@ -455,6 +458,8 @@ def describe(pool, op, outcome, clause):
         args = [k(op[1]), k(op[3])]
     elif name in ("reorder", "rename", "set_link", "new_id"):
         args = [k(op[1])]
+    elif name == "new_id_of":
+        args = [k(op[1]), k(op[2])]
     elif name in ("new_section", "new_property"):
         args = [k(op[2])]
     elif name in ("create_section", "create_property"):
